@@ -240,20 +240,22 @@ HDR = ('From Hive.Base Require Import Prelude.\nFrom Hive.Model Require Import T
 def engine(res, spec, tier, seed, extended=False):
     t0 = time.time()
     want = res.prop
-    nets = [('denver', denver())]
+    nets = []
+    # twins FIRST: the same junction ids and street plan twice, slow streets everywhere, then fast arterials among them.  Whatever a
+    # network object remembers (about junction ids, pairs, links) must not leak into another network of the same process; routed
+    # before every other network, so that nothing else has filled such a memory yet.
+    for k in range(1 if tier == 'quick' else 6):
+        a, b = twin_graphs(random.Random(f'twins|{seed}|{k}'))
+        nets.append((f'twin{k}_slow', a)); nets.append((f'twin{k}_fast', b))
+    nets.append(('denver', denver()))
     n_gen = 4 if tier == 'quick' else 40
     if extended:
         n_gen = 20
     rng0 = random.Random(seed * 31337)
     for k in range(n_gen):
         nets.append((f'generated{k}', gen_graph(random.Random(seed * 31337 + k))))
-    # twins: the same junction ids and street plan twice, first with slow streets everywhere, then with fast arterials among them.
-    # Whatever a network object remembers (about junction ids, pairs, links) must not leak into another network.
     for k in range(1 if tier == 'quick' else 6):
         nets.append((f'shortblocks{k}', short_block_graph(random.Random(f'short|{seed}|{k}'))))
-    for k in range(1 if tier == 'quick' else 6):
-        a, b = twin_graphs(random.Random(f'twins|{seed}|{k}'))
-        nets.append((f'twin{k}_slow', a)); nets.append((f'twin{k}_fast', b))
     seen = set()
     route_terms, cert_terms = [], []
     stats = {'pairs': 0, 'suboptimal': 0, 'max_excess_pct': 0.0}
